@@ -499,6 +499,26 @@ def sp_hv(ex, e, st):
 HERE = z3.Function("here", z3.IntSort(), z3.BoolSort())      # instantiation marker: mark(t) in ghost code assumes here(t)
 
 
+def sp_shuffled_row(ex, e, st):
+    """shuffled_row(seed, i): the row numpy's generator produces from [0, 1, 2, 3] as its (i+1)-th shuffle after seed(seed)."""
+    seed, i = _int(ex.ev(e.args[0], st)), _int(ex.ev(e.args[1], st))
+    return specz3.rng_shuffle(specz3.rng_at(seed, i), iv(0), iv(1), iv(2), iv(3))
+
+
+def sp_rng_is(ex, e, st):
+    """rng_is(seed, i): the global generator is in the state reached by seed(seed) followed by i shuffles."""
+    from pyvc import library
+    return library.rng_state(ex, st) == specz3.rng_at(_int(ex.ev(e.args[0], st)), _int(ex.ev(e.args[1], st)))
+
+
+def sp_row_is(ex, e, st):
+    """row_is(matrix, r, row array): the four entries of row r are those of the given row value."""
+    m = _mat(ex.ev(e.args[0], st))
+    r = _int(ex.ev(e.args[1], st))
+    a = ex.ev(e.args[2], st)
+    return z3.And(*[m.at(r, j) == a[j] for j in range(4)])
+
+
 def sp_here(ex, e, st):
     return HERE(_int(ex.ev(e.args[0], st)))
 
@@ -578,6 +598,6 @@ def sp_accepts(ex, e, st):
 SPEC = {
     "forall": sp_forall, "exists": lambda ex, e, st: sp_forall(ex, e, st, exists=True), "implies": sp_implies, "old": sp_old,
     "digits": sp_digits, "val": sp_val, "dval": sp_dval, "val2": sp_val2, "canon": sp_canon, "ipow": sp_ipow, "dig": sp_dig,
-    "same": sp_same_seq, "upd": sp_upd, "accepts": sp_accepts, "rdeg": sp_rdeg, "rarc": sp_rarc, "rdigit": sp_rdigit, "is_perm_row": sp_is_perm_row, "row": sp_row, "rwalkv": sp_rwalkv, "A2": sp_A2, "vt_matches": sp_vt_matches, "rwt": sp_rwt, "rlv": sp_rlv, "rhv": sp_rhv, "here": sp_here, "deg": sp_deg, "arc_of_digit": sp_arc_of_digit, "digit_of_arc": sp_digit_of_arc, "is_accessor": sp_is_accessor,
+    "same": sp_same_seq, "upd": sp_upd, "accepts": sp_accepts, "shuffled_row": sp_shuffled_row, "rng_is": sp_rng_is, "row_is": sp_row_is, "rdeg": sp_rdeg, "rarc": sp_rarc, "rdigit": sp_rdigit, "is_perm_row": sp_is_perm_row, "row": sp_row, "rwalkv": sp_rwalkv, "A2": sp_A2, "vt_matches": sp_vt_matches, "rwt": sp_rwt, "rlv": sp_rlv, "rhv": sp_rhv, "here": sp_here, "deg": sp_deg, "arc_of_digit": sp_arc_of_digit, "digit_of_arc": sp_digit_of_arc, "is_accessor": sp_is_accessor,
     "is_table": sp_is_table, "first": sp_first, "second": sp_second, "dec_step": sp_dec_step, "walkv": sp_walkv, "enc_step": sp_enc_step, "link": sp_link, "wt": sp_wt, "lv": sp_lv, "hv": sp_hv, "ascents": sp_ascents, "nsucc": sp_nsucc, "rsum": sp_rsum, "code": sp_code, "dnav": sp_dnav, "codes": sp_codes, "is_dna": sp_is_dna, "pv": sp_pv, "store": sp_store, "A": sp_A, "D": sp_D, "P": sp_P, "seq_is": sp_seq_is, "seq_is_cons": sp_seq_is_cons, "ite": sp_ite, "isnone": sp_isnone, "cnt": sp_cnt, "ssum": sp_ssum,
 }
